@@ -398,6 +398,7 @@ Proof.
     destruct (s_cur s) as [g0|] eqn:Ec; [|apply Plain; rewrite <- H; reflexivity].
     destruct (t_prev t) eqn:Epv; [apply Plain; rewrite <- H; reflexivity|].
     destruct (s_full s) eqn:Efu; [|apply Plain; rewrite <- H; reflexivity].
+    destruct (t_kind t) eqn:Ekd; cbn [andb] in H; [|apply Plain; rewrite <- H; reflexivity].
     (* the lookup extends the file *)
     injection H as <- <-. pose proof W as (Wp & Wc & Wm & Wl & Wn).
     exists LOCKED, h, e. split; [exact F|]. ms Hpc.
